@@ -26,16 +26,34 @@ Theorem C20_best_perm_max : forall (r : nat) (C : mat R) (p : list nat),
 Proof. intros r C p H. split; [now apply best_perm_max | apply best_perm_is_perm]. Qed.
 Print Assumptions C20_best_perm_max.
 
+(* OPTIMALITY OF THE RETURNED MATCHING.  scipy's linear_sum_assignment is an oracle, so the clause "returns the maximum over
+   all column matchings" is NOT proved about the code path: in the theorems named ..._given_lsa it is the hypothesis
+   lsa_contract itself.  What is proved without any assumption on the oracle: C20_best_perm_max (the brute force is optimal),
+   C20_checked_assignment_optimal (the check executed in Coq on EVERY correspondence case -- score of the returned matching =
+   score of the brute-force optimum -- implies that the returned matching dominates every matching) and
+   C20_congruence_brute_force_is_max (the model with the brute force in place of the oracle returns the maximum). *)
+Theorem C20_checked_assignment_optimal : forall (r : nat) (C : mat R) (p : list nat),
+  score Rops r C p = score Rops r C (best_perm Rops r C) -> forall q, is_perm r q -> score Rops r C q <= score Rops r C p.
+Proof. exact checked_assignment_optimal. Qed.
+Print Assumptions C20_checked_assignment_optimal.
+
+Theorem C20_congruence_brute_force_is_max : forall (absv : bool) (As Bs : list (mat R)) (nas nbs : list (list R)) (v : R) (p : list nat),
+  congruence Rops absv As Bs nas nbs (fun C => best_perm Rops (nrows C) C) = Ok (v, p) ->
+  let r := ncols (hd [] As) in let C := cong_all Rops absv r (zip_modes As Bs nas nbs) in
+  is_perm r p /\ v = score Rops r C p /\ forall q, is_perm r q -> score Rops r C q <= v.
+Proof. exact congruence_brute_force_is_max. Qed.
+Print Assumptions C20_congruence_brute_force_is_max.
+
 (* congruence_coefficient returns the maximum over all column matchings together with a permutation attaining
    it, PROVIDED the assignment oracle meets its contract (which every run re-checks against best_perm) *)
-Theorem C20_congruence_is_max : forall (absv : bool) (As Bs : list (mat R)) (nas nbs : list (list R))
+Theorem C20_congruence_is_max_given_lsa : forall (absv : bool) (As Bs : list (mat R)) (nas nbs : list (list R))
   (assign : mat R -> list nat) (v : R) (p : list nat),
   congruence Rops absv As Bs nas nbs assign = Ok (v, p) -> lsa_contract assign ->
   let r := ncols (hd [] As) in let C := cong_all Rops absv r (zip_modes As Bs nas nbs) in
   is_perm r p /\ v = score Rops r C p /\ v = score Rops r C (best_perm Rops r C) /\
   forall q, is_perm r q -> score Rops r C q <= v.
 Proof. exact congruence_is_max. Qed.
-Print Assumptions C20_congruence_is_max.
+Print Assumptions C20_congruence_is_max_given_lsa.
 
 (* every cosine is bounded by 1 (Cauchy-Schwarz), hence the coefficient of ANY matching lies in [-1,1],
    and in [0,1] when absolute values are used *)
@@ -62,7 +80,7 @@ Print Assumptions C20_cosine_of_multiple.
    column i of A (a positive multiple when absolute_value is off).  Then the coefficient is 1, the recovering
    permutation attains it, so does the returned one, and (absolute values) the returned matching pairs columns
    with |cosine| = 1 in every mode.  Conditional on the oracle contract like C20_congruence_is_max. *)
-Theorem C20_congruence_equiv_one : forall (absv : bool) (As Bs : list (mat R)) (nas nbs : list (list R))
+Theorem C20_congruence_equiv_one_given_lsa : forall (absv : bool) (As Bs : list (mat R)) (nas nbs : list (list R))
   (assign : mat R -> list nat) (v : R) (p rec : list nat),
   congruence Rops absv As Bs nas nbs assign = Ok (v, p) -> tape_valid (zip_modes As Bs nas nbs) -> lsa_contract assign ->
   let r := ncols (hd [] As) in let ms := zip_modes As Bs nas nbs in
@@ -70,7 +88,7 @@ Theorem C20_congruence_equiv_one : forall (absv : bool) (As Bs : list (mat R)) (
   v = 1 /\ score Rops r (cong_all Rops absv r ms) rec = 1 /\ score Rops r (cong_all Rops absv r ms) p = 1 /\
   (absv = true -> forall i m, (i < r)%nat -> In m ms -> Rabs (cosine m i (nth i p 0%nat)) = 1).
 Proof. exact congruence_equiv_one. Qed.
-Print Assumptions C20_congruence_equiv_one.
+Print Assumptions C20_congruence_equiv_one_given_lsa.
 
 (* no oracle involved: ANY matching of mean congruence 1 pairs collinear columns in every mode *)
 Theorem C20_score_one_aligned : forall (r : nat) (ms : list (cmode R)) (p : list nat),
@@ -81,7 +99,7 @@ Print Assumptions C20_score_one_aligned.
 
 (* cp_permute_factors: weights and factor columns are permuted by the returned permutation, and for an equivalent
    tensor component i of the result (= column p[i] of the input) is collinear with component i of the reference *)
-Theorem C20_cp_permute_aligned : forall (ref fs : list (mat R)) (w : list R) (nas nbs : list (list R))
+Theorem C20_cp_permute_aligned_given_lsa : forall (ref fs : list (mat R)) (w : list R) (nas nbs : list (list R))
   (assign : mat R -> list nat) (w' : list R) (fs' : list (mat R)) (p rec : list nat),
   cp_permute_factors Rops ref fs w nas nbs assign = Ok (w', fs', p) ->
   tape_valid (zip_modes ref fs nas nbs) -> lsa_contract assign ->
@@ -90,7 +108,7 @@ Theorem C20_cp_permute_aligned : forall (ref fs : list (mat R)) (w : list R) (na
   is_perm r p /\ w' = map (fun k => nth k w 0) p /\ fs' = map (permute_cols Rops p) fs /\
   (forall i m, (i < r)%nat -> In m ms -> Rabs (cosine m i (nth i p 0%nat)) = 1).
 Proof. exact cp_permute_aligned. Qed.
-Print Assumptions C20_cp_permute_aligned.
+Print Assumptions C20_cp_permute_aligned_given_lsa.
 
 (* ---------- leverage scores ---------- *)
 (* U: left factor of the thin SVD (oracle), unit-norm columns.  The returned vector has one entry per row, is
@@ -156,7 +174,7 @@ Proof. exact score_one_collinear. Qed.
 Print Assumptions C20_score_one_collinear.
 
 (* component i of every permuted factor is a non-zero multiple of component i of the reference factor *)
-Theorem C20_cp_permute_collinear : forall (ref fs : list (mat R)) (w : list R) (nas nbs : list (list R))
+Theorem C20_cp_permute_collinear_given_lsa : forall (ref fs : list (mat R)) (w : list R) (nas nbs : list (list R))
   (assign : mat R -> list nat) (w' : list R) (fs' : list (mat R)) (p rec : list nat),
   cp_permute_factors Rops ref fs w nas nbs assign = Ok (w', fs', p) ->
   tape_valid (zip_modes ref fs nas nbs) -> lsa_contract assign ->
@@ -166,7 +184,7 @@ Theorem C20_cp_permute_collinear : forall (ref fs : list (mat R)) (w : list R) (
   (forall i m, (i < r)%nat -> In m ms -> exists d, d <> 0 /\
      forall k, (k < nrows (mB m))%nat -> mget Rops (permute_cols Rops p (mB m)) k i = d * mget Rops (mA m) k i).
 Proof. exact cp_permute_collinear. Qed.
-Print Assumptions C20_cp_permute_collinear.
+Print Assumptions C20_cp_permute_collinear_given_lsa.
 
 (* ---------- cp_permute_factors on a list of tensors: each one is treated exactly as if passed alone ---------- *)
 Theorem C20_cp_permute_list_spec : forall (ref : list (mat R)) (nas : list (list R))
@@ -184,7 +202,8 @@ Theorem C20_cp_permute_list_err : forall (ref : list (mat R)) (nas : list (list 
 Proof. exact cp_permute_list_err. Qed.
 Print Assumptions C20_cp_permute_list_err.
 
-(* ---------- regression metrics = their definitions, every shape, every axis ---------- *)
+(* ---------- regression metrics = their documented definitions (tensorly's forms; R2_score is the UNCENTRED
+   1 - |Xp - Xo|^2 / |Xo|^2, not the textbook R^2), every shape, every axis ---------- *)
 (* mean_of n f = (sum_{k<n} f k) / n.  axis=None: k runs over the flat (row-major) data *)
 Theorem C20_MSE_none_def : forall (yt yp : tensor R), shape yp = shape yt ->
   tget Rops (MSE Rops None yt yp) [] =
